@@ -19,6 +19,7 @@ macro_rules! prop {
 }
 prop!("c00", c00, gen_c00, "gen/c00.rs");
 prop!("c01", c01, gen_c01, "gen/c01.rs");
+prop!("c03", c03, gen_c03, "gen/c03.rs");
 prop!("c08", c08, gen_c08, "gen/c08.rs");
 prop!("c11", c11, gen_c11, "gen/c11.rs");
 prop!("c12", c12, gen_c12, "gen/c12.rs");
@@ -31,6 +32,8 @@ pub fn tables() -> Vec<&'static [(&'static str, fn())]> {
     v.push(gen_c00::TABLE);
     #[cfg(feature = "c01")]
     v.push(gen_c01::TABLE);
+    #[cfg(feature = "c03")]
+    v.push(gen_c03::TABLE);
     #[cfg(feature = "c08")]
     v.push(gen_c08::TABLE);
     #[cfg(feature = "c11")]
